@@ -232,6 +232,19 @@ CHECKS = {
         "crash-point / fault enumeration over wire events x failure kinds + Hypothesis injection plans on the full stack in virtual time",
         "DESIGN.md 4/C10",
     ),
+    "C13": (
+        "exploration",
+        "For every protocol version 4..14, incomingMessageHandler and trustCenterJoinHandler frames are encoded byte by byte "
+        "with hand-written field tables (pre-v14 and v14 orders, independent of bellows' tables and of the unpacking code) "
+        "from Hypothesis-generated contents (all message types incl. undefined, APS fields, signed RSSI extremes, payload "
+        "0..100 bytes, Xiaomi/Lumi IEEE prefixes, every device-update x decision combination) and pushed through "
+        "EZSP.frame_received into a real ControllerApplication with recorders in place of zigpy's entry points. Exactly one "
+        "packet for unicast/multicast/broadcast with source, endpoints, profile, cluster, APS sequence, payload, LQI, RSSI "
+        "equal to the encoded ones and destination own-NWK/group/broadcast; none for other types; join/leave/nothing as stated.",
+        "Application built with the zigpy.util.Requests shim; zigpy's packet_received/handle_join/handle_leave are replaced by recorders.",
+        "Hypothesis content generation with an independent byte-level encoder; decoded-packet equality (differential against hand-written layouts)",
+        "DESIGN.md 4/C13",
+    ),
 }
 
 NOT_YET = "check not built yet in this session (planned, see DESIGN.md section 4)"
